@@ -35,6 +35,9 @@ def inputs():
     # a free amino acid as a chain of its own: N- and C-terminal at once
     free = gen.transform(gen.peptide(["GLY"], chain="C", start=21), t=(0, 30, 0))
     neutral_free = gen.pdb_text([a2, b, free])
+    # titratable residues at both ends of chain A: at low pH their side chains are protonated whatever the termini are
+    a3 = gen.peptide(["ASP", "ALA", "HIS", "LYS", "GLU"], chain="A")
+    neutral_titr = gen.pdb_text([a3, b])
     # chain identifiers that pdb2pqr re-assigns: two peptides under one chain id (told apart by OXT), a lettered chain,
     # waters without chain id between and after them
     p1 = gen.peptide(["LYS", "ALA", "SER"], chain="A", start=1)
@@ -60,7 +63,7 @@ def inputs():
     # the left-most heavy atom at x = -999.950: atoms added next to it fall below -1000 (a field that overflows)
     xmin = min(x["xyz"][0] for x in a + b + w)
     edge = gen.pdb_text([gen.transform(a + w[:1], t=(-999.95 - xmin, 0, 0)), gen.transform(b + w[1:], t=(-999.95 - xmin, 0, 0))])
-    return {"two-chains-pro": two, "neutral": neutral, "neutral-free": neutral_free, "reassigned": reassigned, "wide": wide,
+    return {"two-chains-pro": two, "neutral": neutral, "neutral-free": neutral_free, "neutral-titr": neutral_titr, "reassigned": reassigned, "wide": wide,
             "unordered": unordered, "edge": edge}
 
 
@@ -253,6 +256,11 @@ def run(ctx):
         jobs.append({"kind": "neutral", "input1": texts["neutral"], "input2": texts["neutral"], "args1": ["--ff=PARSE"],
                      "args2": ["--ff=PARSE"] + neut, "toggled": neut, "shift": shift, "what": f"neutral termini {neut}"})
     # with a one-residue chain (both termini on one residue): one more terminus of each kind
+    # ... with the side chains of the terminal residues titrated (PROPKA at pH 2): neutralising a terminus leaves them as they are
+    tit = ["--ff=PARSE", "--titration-state-method=propka", "--with-ph=2"]
+    for neut, shift in ((["--neutraln"], -2), (["--neutralc"], 2), (["--neutraln", "--neutralc"], 0)):
+        jobs.append({"kind": "neutral", "input1": texts["neutral-titr"], "input2": texts["neutral-titr"], "args1": tit,
+                     "args2": tit + neut, "toggled": neut, "shift": shift, "what": f"neutral termini, terminal side chains titrated {neut}"})
     for neut, shift in ((["--neutraln"], -3), (["--neutralc"], 3), (["--neutraln", "--neutralc"], 0)):
         jobs.append({"kind": "neutral", "input1": texts["neutral-free"], "input2": texts["neutral-free"], "args1": ["--ff=PARSE"],
                      "args2": ["--ff=PARSE"] + neut, "toggled": neut, "shift": shift, "what": f"neutral termini, free amino acid {neut}"})
